@@ -62,7 +62,7 @@ def flat_close(vals, rats):
 class C09(Prop):
     id = "C09"
     anchored = ["src/pewlib/srr/srr.py", "src/pewlib/srr/config.py", "src/pewlib/process/calc.py"]
-    cases = {"quick": 220, "thorough": 5000}
+    cases = {"quick": 260, "thorough": 12000}
     rule = ("crossed stacks of 2..5 layers (layer i has the shape of layer i mod 2), 1..6 lines, samples = warm-up + needed + excess "
             "0..7 (or 1-2 short / negative warm-up: the validity check must then not accept something that cannot be reconstructed), "
             "magnification 1..4 realised by (spotsize, speed, scantime) triples incl. binary-inexact values whose float quotient is the "
